@@ -205,6 +205,14 @@ def apply(rw, which, unsupported):
                     break
                 if "guardelse" in which and a.guard is not None and _binds(a.pat):
                     rest = arms[k + 1:]
+                    # R17b: the NEXT arm has the very same pattern text and no guard: `P if g => A, P => E` is
+                    # `P => if g { A } else { E }` (same bindings in both bodies); later arms are untouched
+                    if rest and rest[0].guard is None and re.sub(r"\s+", "", rest[0].pat) == re.sub(r"\s+", "", a.pat):
+                        blk = a.body if a.is_block else "{ %s }" % a.body
+                        els = rest[0].body if rest[0].is_block else "{ %s }" % rest[0].body
+                        new = (a.start, rest[0].end, "%s => { if %s %s else %s }," % (a.pat, a.guard, blk, els))
+                        n17 += 1
+                        break
                     if not (len(rest) == 1 and rest[0].pat == "_" and rest[0].guard is None):
                         raise unsupported("unsupported construct: guarded match arm binding a variable that is not followed by a single `_` arm (R17) in %s" % rw.what)
                     blk = a.body if a.is_block else "{ %s }" % a.body
